@@ -345,6 +345,10 @@ OBLIGATIONS.append(M("C14", "c14_if_branch", {"q": "if_branch"}, ["Interpreter::
 OBLIGATIONS.append(M("C16", "c16_step_vs_run", {"q": "step_vs_run"}, ["Interpreter::run_impl", "Interpreter::next_impl", "Interpreter::match_script_bit", "Interpreter::match_opcode"],
                      "twelve short scripts (arithmetic, stack, alt stack, VERIFY, IF/ELSE, NOTIF, nested IF, too many DROPs, empty, OP_RETURN followed by more elements at top level and inside an executed branch) on two symbolic one-byte operands: run_impl and repeated next_impl executed on the same path end in the same outcome and stacks; the step sequence ends after a failing step; nothing runs after an executed OP_RETURN", cost=1))
 
+OBLIGATIONS.append(M("C02", "c02_script_parse", {"q": "script_parse"}, ["Script::from_bytes", "Script::if_statement_pass", "Script::read_if_statement", "Script::read_pass", "Script::read_fail", "OpCodes::from_u8 (num_derive)"],
+                     "twelve structured script shapes (opcodes; direct pushes of 1, 2, 3, 75 bytes; PUSHDATA1 of 3, 76, 255; PUSHDATA2 of 256; IF/ELSE, NOTIF without ELSE, empty branches, two-level nesting; OP_0 before a push; the empty script) with symbolic payload bytes: parse(reference serialisation) = the structure; the same inputs cut short inside their final push and three unclosed conditionals must be rejected", cost=1,
+                     stubs=("E2: content-aware std::io::Cursor over a byte string of known length (read_u8/u16/u32, partial read, position)",)))
+
 
 def for_property(pid):
     return [dict(o) for o in OBLIGATIONS if o["property"] == pid]
